@@ -22,8 +22,6 @@ package hash
 //@   nopanic[C05]
 //@   requires hash != nil && hash.h != nil
 //@   requires each(data, d, hashable(d))
-//@   modifies nothing
-//@   allocates
 
 //@ func (*Hash).Digest
 //@   nopanic[C05]
@@ -87,3 +85,25 @@ package hash
 //@   modifies nothing
 //@   allocates
 //@   ensures[C19] result ==> (len(c) == 64 && len(d) == 32)
+
+// ---------------------------------------------------------------- abstract transcript (C06, C09, C10, C11, C19)
+// hstate(h): ghost value of a *Hash = h_init() with the abstractions of all absorbed items folded in, in order.
+//@ spec fn hw(Int, Int) Int
+//@ spec fn hsum(Int) Int
+//@ spec fn h_init() Int
+//@ spec fn h_bwd(Int, Int) Int
+//@ spec fn h_bytes(Int) Int
+//@ spec fn h_obj(Iface) Int
+//@ pred habs(d interface{}) := ite(typeis(d, *BytesWithDomain), h_bwd(d.(*BytesWithDomain).TheDomain, bval(d.(*BytesWithDomain).Bytes)), ite(typeis(d, BytesWithDomain), h_bwd(d.(BytesWithDomain).TheDomain, bval(d.(BytesWithDomain).Bytes)), ite(typeis(d, []byte), h_bytes(bval(d.([]byte))), h_obj(d))))
+
+//@ func New
+//@   summary hstate(result) == fold(initialData, h_init(), acc, x, hw(acc, habs(x)))
+//@ func (*Hash).WriteAny
+//@   modifies hstate(hash)
+//@   summary result == nil ==> hstate(hash) == fold(data, old(hstate(hash)), acc, x, hw(acc, habs(x)))
+//@ func (*Hash).Sum
+//@   summary bval(result) == hsum(hstate(hash))
+//@ func (*Hash).Clone
+//@   summary hstate(result) == hstate(hash)
+//@ func (*Hash).Fork
+//@   summary hstate(result) == fold(data, hstate(hash), acc, x, hw(acc, habs(x)))
